@@ -582,23 +582,11 @@ class CParser:
         if tok.type == "LPAREN":
             saw_paren = True
             self._advance()
-            tok_type, nested_paren = self._scan_declarator_name_info()
-            if nested_paren:
-                saw_paren = True
-            depth = 1
-            while True:
-                tok = self._peek()
-                if tok is None:
-                    return None, saw_paren
-                if tok.type == "LPAREN":
-                    depth += 1
-                elif tok.type == "RPAREN":
-                    depth -= 1
-                    self._advance()
-                    if depth == 0:
-                        break
-                    continue
-                self._advance()
+            # The name (if any) is the first thing inside the innermost
+            # parentheses; there is no need to skip to the matching ')' - the
+            # caller rewinds anyway, and skipping the rest of the group at
+            # every nesting level made nested declarators cost quadratic time.
+            tok_type, _ = self._scan_declarator_name_info()
             return tok_type, saw_paren
         return None, saw_paren
 
